@@ -229,9 +229,6 @@ Definition waiting (p : wpc) : bool :=
 
 Definition is_idle (p : wpc) : bool := match p with Idle => true | _ => false end.
 
-Definition set_w (s : sys) (w' : wl) : sys :=
-  mksys w' (now s) (dl s) (pc s) (nenq s) (wakes s) (rets s).
-
 Definition step (s : sys) (a : action) : result :=
   match a with
   | AStartU x e =>
